@@ -293,6 +293,25 @@ def classify_scc(ctx, crate, cg, comp):
         reach_insert = [s for s in succs if _reaches(f, s, insert_bb)]
         if len(reach_insert) == len(succs):
             continue  # both sides go on to insert -> the test does not cut the recursion
+        # every in-SCC call into a function with a visited-set parameter must forward the caller's own set:
+        # a fresh set on one recursive edge makes the guard forget the path
+        fresh = []
+        for gid in comp:
+            g = crate.fns[gid]
+            gvis = [i for i in range(1, g.argc + 1) if g.local_ty(i).startswith("&mut std::collections::HashSet<")]
+            for bb, t, via in cg.callees(gid):
+                if t not in comp_set or via != "direct":
+                    continue
+                tf = crate.fns[t]
+                tvis = [i for i in range(1, tf.argc + 1) if tf.local_ty(i).startswith("&mut std::collections::HashSet<")]
+                if not tvis:
+                    continue
+                c = g.blocks[bb]["t"][1]
+                for i in tvis:
+                    if i - 1 < len(c["args"]) and not any(_refers_to(g, c["args"][i - 1], gv) for gv in gvis):
+                        fresh.append("%s -> %s" % (gid.split("::")[-1], t.split("::")[-1]))
+        if fresh:
+            return "unknown", "recursive call(s) %s pass a set that is not the caller's visited parameter" % sorted(set(fresh))
         return "visited-set", "%s: contains/insert on parameter `%s` dominate every in-SCC call" % (fid, f.local_name(v))
     # ---- structural recursion over the AST
     problems = []
